@@ -165,6 +165,7 @@ class _StreamInitResource:
                     status_code=e.status_code,
                     schema=e.schema,
                     server_id=self._app._server.server_id,
+                    write_logs=e.write_logs,
                 )
                 return
             resp.content_type = _ARROW_CONTENT_TYPE
@@ -201,6 +202,7 @@ class _ExchangeResource:
                     status_code=e.status_code,
                     schema=e.schema,
                     server_id=self._app._server.server_id,
+                    write_logs=e.write_logs,
                 )
                 return
             resp.content_type = _ARROW_CONTENT_TYPE
